@@ -15,6 +15,7 @@ type frame struct {
 	wmBase string // objects with ref >= wmBase were allocated inside the frame's scope
 	what   string
 	blocks map[*ssa.BasicBlock]bool // nil = whole function
+	direct bool                     // applies to the store instructions of the body only, not to callees
 }
 
 func (eng *Engine) newFV(fn *ssa.Function, c *Contract, pre []*Family) *FV {
@@ -231,6 +232,14 @@ func (fv *FV) run() {
 				fv.specErrs = append(fv.specErrs, fmt.Sprintf("%s: modifies: %v", fv.relName, err))
 			} else {
 				fv.frames = append(fv.frames, &frame{items: items, wmBase: fv.wm0, what: "function modifies"})
+			}
+		}
+		if c.HasStores {
+			items, err := fv.modItems(ctx, c.Stores)
+			if err != nil {
+				fv.specErrs = append(fv.specErrs, fmt.Sprintf("%s: stores: %v", fv.relName, err))
+			} else {
+				fv.frames = append(fv.frames, &frame{items: items, wmBase: fv.wm0, what: "function stores", direct: true})
 			}
 		}
 	}
@@ -789,6 +798,9 @@ func (fv *FV) frameCheckCond(st *State, f *Family, guard string, args []string, 
 		return
 	}
 	for _, fr := range fv.activeFrames() {
+		if fr.direct && fv.inCalleeFrame {
+			continue
+		}
 		var alts []string
 		root := args[0]
 		for i := 0; i < 4; i++ {
@@ -827,6 +839,9 @@ func (fv *FV) frameCheckCallee(st *State, keys map[string]bool, what string) {
 		return
 	}
 	for _, fr := range fv.activeFrames() {
+		if fr.direct {
+			continue
+		}
 		all := false
 		for _, it := range fr.items {
 			if it.all {
